@@ -75,6 +75,10 @@ func runC10(c *core.Case) {
 		c10Huge(c)
 		return
 	}
+	if hammerWanted(c, 2) {
+		c10Hammer(c, 2)
+		return
+	}
 	n := r.Intn(11)
 	var sq []ref.ID // h == v IDs for the notation round trip
 	for i := 0; i < n; i++ {
@@ -98,6 +102,7 @@ func runC10(c *core.Case) {
 			sq = append(sq, genID(r, z, z, z, z))
 		}
 		c.Tag("long-list")
+		c.Procs()
 	}
 	sp := ref.Spatials(sq)
 	ex := ref.Exts(sq)
